@@ -380,12 +380,17 @@ def run_case(case):
                 fr = {}
                 nfr = int(rng.integers(2, 4))
                 cur = base
+                # time unit: seconds ... milliseconds (velocities, and with them the multiplier, up to 1e3 times larger)
+                tunit = float(10 ** rng.uniform(-4, -1.5)) if rng.random() < 0.4 else 1.0
                 for t in range(nfr):
                     r = realise.realise(cur, k=3, rng=np.random.default_rng(1))
-                    fr[t] = frames.Frame(t, r.vertices, r.edges, r.cells, time=float(t) * float(rng.uniform(0.5, 2)) if t else 0.0)
+                    fr[t] = frames.Frame(t, r.vertices, r.edges, r.cells,
+                                         time=float(t) * float(rng.uniform(0.5, 2)) * tunit if t else 0.0)
                     nxt = cur.copy()
+                    drift_ = (3 * step * np.exp(1j * rng.uniform(0, 2 * np.pi))) if tunit < 1.0 and t == 0 and rng.random() < 0.7 else 0j
                     for j in nxt.J:
-                        nxt.J[j] = nxt.J[j] + step * complex(*rng.normal(0, 1, 2))
+                        # a common drift of the whole tissue ends up in the multiplier (the column of ones)
+                        nxt.J[j] = nxt.J[j] + step * complex(*rng.normal(0, 1, 2)) + drift_
                     cur = nxt
                 solver = fs.ForSys(fr, cm=False)
                 for when in range(nfr):
@@ -393,6 +398,11 @@ def run_case(case):
                     solver.build_force_matrix(when=when)
                     _solve(solver, when, method, allow, mon, hist, sigs, fam, "velocity",
                            extra={"adimensional_velocity": bool(rng.integers(2))})
+                if tunit < 1.0 and len(solver.frames[0].internal_big_edges) <= 40:
+                    # the ill-scaled case for the iterative back-end: dimensional velocities of a drifting tissue, small time unit
+                    solver.build_force_matrix(when=0)
+                    _solve(solver, 0, "lsq", False, mon, hist, sigs, fam, "velocity", extra={"adimensional_velocity": False})
+                    hist["lsq-ill-scaled-velocity"] = hist.get("lsq-ill-scaled-velocity", 0) + 1
         elif fam == "fixture":
             from forsys import surface_evolver as se
             fr = {}
